@@ -149,6 +149,14 @@ impl<C: CellType> Memory<C> {
     }
 }
 
+#[cfg(hpbf_verif)]
+impl<C: CellType> Memory<C> {
+    /// Verification hook: the raw (size, offset) pair of the tape.
+    pub fn verif_raw(&self) -> (usize, usize) {
+        (self.size, self.offset)
+    }
+}
+
 impl<'a, C: CellType> Context<'a, C> {
     /// Create a new context for executing a Brainfuck program.
     pub fn new(input: Option<Box<dyn Read + 'a>>, output: Option<Box<dyn Write + 'a>>) -> Self {
